@@ -68,6 +68,18 @@ class Gen:
     def emit(self, s):
         self.lines.append(s)
 
+    def cap(self, t):
+        """The model's compaction-strategy step is a no-op (with few small tables the leveled strategy only moves tables), which
+        is true only while a keyspace has fewer than 4 L0 tables: before an operation that adds t tables, if that would make more
+        than 3 since the last major compaction, drain the queue and compact everything explicitly (the model follows `major`)."""
+        if getattr(self, "l0", 0) + t > 3:
+            self.emit("drain")
+            for h in self.handles:
+                self.emit("major h%d" % h)
+            self.l0 = 0
+            self.rot = 0
+        self.l0 = getattr(self, "l0", 0) + t
+
     def header(self):
         h = "open %s" % self.mode
         if self.sealing:
@@ -119,6 +131,7 @@ class Gen:
         cands = [i for i in self.handles if not (self.filters and NAMES[i] in self.filters)]
         if self.fills >= self.sealing or not cands:
             return self.op_put()
+        self.cap(1)
         h = "h%d" % self.r.choice(cands)
         self.emit("bigfill %s 66 1024 t%d" % (h, self.fills))
         self.fills += 1
@@ -149,6 +162,7 @@ class Gen:
         r = self.r
         ks = sorted(r.sample(KEYS, r.randrange(1, 5)), key=lambda h: bytes.fromhex(h))
         items = [(k + "=" + val(r)) if r.random() < 0.85 else k + "!" for k in ks]
+        self.cap(2)          # the flushed memtable and the ingested table
         self.emit("ingest %s %s" % (self.h(), " ".join(items)))
 
     def op_get(self):
@@ -171,6 +185,7 @@ class Gen:
             self.emit("drain")
             self.rot = 0
         self.rot = getattr(self, "rot", 0) + 1
+        self.cap(1)
         self.emit("rotate " + self.h())
 
     def op_step(self):
@@ -183,6 +198,8 @@ class Gen:
 
     def op_major(self):
         self.emit("major " + self.h())
+        if len(self.handles) <= 1:
+            self.l0 = 0
 
     def op_gc(self):
         self.emit(self.r.choice(["gc", "pullup"]))
@@ -196,11 +213,16 @@ class Gen:
         self.handles = []
         for i in hs:
             self.open_ks(i)
+        self.l0 = len(self.handles) if self.sealing else getattr(self, "l0", 0)   # recovery flushes rebuilt memtables: up to one table each
+        # recovery queues its tasks in hash-map order, and a compaction only for keyspaces with L0 runs (the model, which has no
+        # levels, queues one for every keyspace with tables): empty the queue on both sides before anything else, so that
+        # later `step`s take the same task on both sides
         if self.sealing:
             self.emit("journals")    # sealed journals are registered again by recovery
-            self.emit("drain")       # recovery queues its flush tasks in hash-map order: observe only after they ran
+        self.emit("drain")
+        if self.sealing:
             self.emit("journals")
-            self.rot = 0
+        self.rot = 0
         self.emit("dump")
 
     def op_ks(self):
